@@ -212,6 +212,9 @@ def run(prop, tier, seed, replay=None):
                 c.known_seen.append(hit)
             else:
                 c.violation(r, v[key], extra={'verdict': v, 'plain': chars.dec(r['plain']), 'text': chars.dec(r['src'])})
+    if prop == 'C10' and not replay:
+        from checks import multilang
+        multilang.rotation_phase(c, tier)
     c.known_seen = sorted(set(c.known_seen))
     for r in ok[:3] + ok[-3:]:
         c.sample({'doc': r['doc'], 'source': chars.dec(r['src']), 'plain': chars.dec(r['plain']), 'map': r['map'], 'verdict': verdicts[r['id']][key]})
